@@ -35,6 +35,29 @@ def blend_str(b):
     return f"{b.get('mode', 0)} {b.get('alpha', 0)} {int(b.get('clamp', False))} {b.get('source', 0)}"
 
 
+def gen_features(rng, w, h, noise=True, splines=True):
+    """(noise LUT | None, splines | None) for a frame of w x h: valid per Splines::parse (fewer splines than
+    pixels/4, control points distinct, inside or around the frame) -- the `noise` / `splines` plan items"""
+    lut = [rng.choice([0, rng.randrange(1024), rng.randrange(200)]) for _ in range(8)] if noise else None
+    sp = None
+    if splines and w * h >= 16:
+        sp = []
+        for _ in range(rng.randint(1, min(3, w * h // 4 - 1))):
+            coeffs = [0] * 128
+            for c in range(3):
+                for k in range(rng.randint(1, 5)):
+                    coeffs[32 * c + k] = rng.randint(-60, 60)
+            coeffs[96] = rng.randint(3, 60)                 # sigma: a visible width
+            for k in range(1, rng.randint(1, 4)):
+                coeffs[96 + k] = rng.randint(-10, 10)
+            deltas = []
+            for _p in range(rng.randint(1, 5)):
+                deltas.append((rng.randint(-max(2, w // 4), max(2, w // 4)) or 1, rng.randint(-max(2, h // 4), max(2, h // 4))))
+            sp.append({"start": (rng.randrange(w), rng.randrange(h)), "deltas": deltas, "coeffs": coeffs})
+        sp = (rng.randint(-3, 6), sp)
+    return lut, sp
+
+
 def patches_str(ps):
     """`patches NP { REF X0 Y0 W H NT { X Y {MODE ALPHA CLAMP}*(1+nec) }*NT }*NP`; a patch is
     {"ref", "x0", "y0", "w", "h", "targets": [{"x", "y", "blend": [(mode, alpha, clamp)]}]}"""
@@ -72,6 +95,14 @@ def frame_str(img, f):
         s += ["tocperm", f["tocperm"]]
     if f.get("patches"):
         s += [patches_str(f["patches"])]
+    if f.get("splines"):
+        # (quant_adjust, [{"start": (x, y), "deltas": [(dx, dy)], "coeffs": 128 ints}])
+        qa, sp = f["splines"]
+        s += ["splines", qa, len(sp)]
+        for q in sp:
+            s += [q["start"][0], q["start"][1], len(q["deltas"])] + [v for d in q["deltas"] for v in d] + list(q["coeffs"])
+    if f.get("noise"):
+        s += ["noise"] + list(f["noise"])
     s += ["chans", len(f["chans"])] + [chan_str(*c) for c in f["chans"]]
     return " ".join(map(str, s))
 
